@@ -194,7 +194,7 @@ def equation_of_motion(mdl: M.Model, tr, dts, out, pid='C03', init_speed=None):
 
 
 # ---------------------------------------------------------------------------------------
-def lock_machine(mdl: M.Model, tr, dts, pwm0, w_init, out, pid='C13', start=0, held_prev=False):
+def lock_machine(mdl: M.Model, tr, dts, pwm0, w_init, out, pid='C13', start=0, held_prev=False, hand=None):
     """Replays the documented lock decisions over the recorded values.
     Returns (held flags, ambiguous count)."""
     last = mdl.n - 1
@@ -212,6 +212,8 @@ def lock_machine(mdl: M.Model, tr, dts, pwm0, w_init, out, pid='C13', start=0, h
     scale_w = max(mdl.w0, float(np.max(np.abs(wm))) if tr.n else 0.0)
     for k in range(start, tr.n):
         D = pwm0 if k == 0 else pwm[k - 1]
+        if hand and k in hand:
+            D = hand[k]               # set by hand between two runs: that is the duty cycle in force now
         if k == 0:
             wstar_m = R * w_init
         else:
